@@ -445,15 +445,70 @@ func c06Edited(c *Ctx, idx int) {
 	}
 }
 
+// c06Foreign: documents whose plain containers hold foreign Go values (typed slices and maps,
+// arrays, structs, pointers).  Whatever the library does with them (today: treats them as opaque
+// values), it must not rewrite the caller's containers: same dynamic type and value at every
+// position after every call, for any expression.
+func c06Foreign(c *Ctx, idx int) {
+	r := c.Rand("")
+	type rec struct {
+		Name string
+		N    int
+		Tags []string
+	}
+	mk := func() map[string]any {
+		return map[string]any{
+			"name": "doc", "strs": []string{"b", "a", "c"}, "ints": []int{3, 1, 2}, "f64s": []float64{1.5, 0.5}, "m": map[string]string{"a": "1", "b": "2"}, "mi": map[string]int{"k": 1},
+			"arr": [3]int{3, 1, 2}, "st": rec{"s", 1, []string{"t"}}, "pt": &rec{Name: "p"}, "ms": []map[string]any{{"a": json.Number("1")}, {"a": json.Number("2")}}, "ifs": []any{[]string{"x"}, map[string]string{"y": "z"}, rec{Name: "in-array"}, json.Number("7")},
+			"nested": map[string]any{"inner": []int{1, 2}, "deep": map[string]any{"deeper": map[string]string{"q": "r"}}}, "bytes": []byte("raw"), "nums": []any{json.Number("2"), json.Number("1")},
+		}
+	}
+	doc := mk()
+	before := fmt.Sprintf("%#v", doc)
+	var text string
+	switch idx % 3 {
+	case 0:
+		text = gen.Pick(r, []string{"name", "@", "strs", "ints", "m", "st", "pt", "ifs", "nested", "nested.inner", "nested.deep.deeper", "ms[*].a", "ms[0]", "ifs[0]", "ifs[*]", "ifs[]", "nums", "sort(nums)", "[strs, ints]", "{a: strs, b: m}", "to_array(strs)", "not_null(missing, strs)", "type(strs)", "type(st)", "length(strs)", "keys(@)", "values(@)", "strs[0]", "strs[::-1]", "m.a", "arr", "arr[0]", "merge(@, {k: `1`})", "merge({k: strs}, nested)", "reverse(ifs)", "sort_by(ms, &a)", "map(&@, ifs)", "ifs[?@]", "strs == strs", "contains(ifs, strs)", "bytes", "to_string(nums)", "*", "nested.*", "[*]", "@.*.inner"})
+	case 1:
+		g := &gen.ExprGen{R: r, Root: nil, Funcs: 50, Lets: true, Arith: false}
+		jsonish, _ := ref.FromJSON(`{"name":"doc","strs":["b"],"ints":[1],"m":{"a":"1"},"nested":{"inner":[1]},"ifs":[["x"]],"nums":[2,1],"ms":[{"a":1}]}`)
+		g.Root = jsonish
+		text = ref.Print(g.Expr(jsonish, 3))
+	default:
+		text = c.c06Expr(r, nil)
+	}
+	if strings.Contains(text, "pad_") {
+		return
+	}
+	e, lc := c.LibCompile(text)
+	for k := 0; k < 3; k++ {
+		var l LibOut
+		if k == 1 && lc.Err == nil && lc.Panic == nil {
+			l = c.LibExprSearch(e, text, doc)
+		} else {
+			l = c.LibSearch(text, doc)
+		}
+		if l.Panic != nil {
+			return // C03's subject
+		}
+		if after := fmt.Sprintf("%#v", doc); after != before {
+			c.Report(Violation{Rule: "C06/input-modified", Expr: text, Data: clipS(before, 1500), Got: clipS(after, 1500), Detail: fmt.Sprintf("a document holding foreign Go values changed (dynamic types or values) during call %d", k+1), Features: map[string]string{"stream": "foreign-containers"}})
+			return
+		}
+	}
+	c.Nontrivial(text)
+}
+
 func init() {
 	Register(&Property{
 		ID:            "C06",
-		Rule:          "histories of 3-8 Expression.Search calls of one compiled expression over 2-4 documents with repeats (d1 dx d1 dy ...); expressions biased to functions and selectors that build or reorder containers (sort, sort_by, reverse, merge, group_by, from_items, to_array, [*], slices, flatten, multi-select, filters, literals returned by reference and then sorted/reversed/merged); plus a directed list (every ordering/reversing/merging function x every way of passing an array of the document or a literal without a copy: x, x[*], x[:], x[], x[?`true`], to_array(x), (x), x | @, ...); every slice of every document carries 1-3 spare capacity slots filled with canaries; per call: outcome = fresh one-shot Search of the same text on a deep copy, deep snapshot of every document unchanged (dynamic types, values, lengths, capacity tails, container identities), AST fingerprint of the compiled expression unchanged (hook), every earlier result still equal to the snapshot taken when it was returned; edited-in-place stream: the caller edits its document in place between calls (leaf replaced, elements/values swapped, member added or removed; container identities kept) and both Expression.Search and one-shot Search on those same containers must equal a fresh Search on a deep copy of the current content; MustCompile panics exactly when Compile fails (corpus expressions and mutants); non-trivial = a history that returned a non-empty container; distinct by (expression, first document)",
+		Rule:          "histories of 3-8 Expression.Search calls of one compiled expression over 2-4 documents with repeats (d1 dx d1 dy ...); expressions biased to functions and selectors that build or reorder containers (sort, sort_by, reverse, merge, group_by, from_items, to_array, [*], slices, flatten, multi-select, filters, literals returned by reference and then sorted/reversed/merged); plus a directed list (every ordering/reversing/merging function x every way of passing an array of the document or a literal without a copy: x, x[*], x[:], x[], x[?`true`], to_array(x), (x), x | @, ...); every slice of every document carries 1-3 spare capacity slots filled with canaries; per call: outcome = fresh one-shot Search of the same text on a deep copy, deep snapshot of every document unchanged (dynamic types, values, lengths, capacity tails, container identities), AST fingerprint of the compiled expression unchanged (hook), every earlier result still equal to the snapshot taken when it was returned; edited-in-place stream: the caller edits its document in place between calls (leaf replaced, elements/values swapped, member added or removed; container identities kept) and both Expression.Search and one-shot Search on those same containers must equal a fresh Search on a deep copy of the current content; foreign-containers stream: documents whose plain containers hold typed slices/maps, arrays, structs and pointers keep the same dynamic type and value at every position after every call; MustCompile panics exactly when Compile fails (corpus expressions and mutants); non-trivial = a history that returned a non-empty container; distinct by (expression, first document)",
 		MinNontrivial: 1000,
 		Streams: []Stream{
 			{Name: "histories", N: func(c *Ctx) int { return tierN(c, 8000, 600000) }, Run: c06History},
 			{Name: "directed", N: func(c *Ctx) int { return len(c07Directed()) }, Run: c06Directed, Exhaustive: true},
 			{Name: "edited-in-place", N: func(c *Ctx) int { return tierN(c, 5000, 300000) }, Run: c06Edited},
+			{Name: "foreign-containers", N: func(c *Ctx) int { return tierN(c, 3000, 150000) }, Run: c06Foreign},
 			{Name: "mustcompile", N: func(c *Ctx) int { return tierN(c, 10000, 100000) }, Run: c06Must},
 		},
 	})
